@@ -25,7 +25,7 @@ PLUMB = [op('seqops', n) for n in ('mux_observable', 'demux_observable', 'demux_
 MISC_OPS = [op('seqops', n) for n in ('assert_mux', 'assert_1_mux', 'do_action_mux', 'flat_map_mux')]
 ERRORS = [op('seqops', n) for n in ('error_ignore', 'error_map', 'error_router')]
 SPAWN = [op('spawners', n) for n in ('split_mux', 'time_split_mux', 'group_by_mux')] + [op('roll', 'roll_mux'), op('roll', 'roll_count')]
-TEE = [fn('tee', 'unit_tee_map', n=n, join=j) for n in (2, 3) for j in ('zip', 'combine_latest', 'merge')] + [fn('plainops', 'unit_plain', which='tee'), fn('tee', 'unit_tee_wiring')]
+TEE = [fn('tee', 'unit_tee_map', n=n, join=j) for n in (2, 3) for j in ('zip', 'combine_latest', 'merge')] + [fn('plainops', 'unit_plain', which='tee'), fn('tee', 'unit_tee_wiring'), fn('tee', 'unit_mux_connectable')]
 HELP = lambda *ws: [fn('helpers', 'unit_helpers', which=w) for w in ws]
 PLAIN = lambda *ws: [fn('plainops', 'unit_plain', which=w) for w in ws]
 LEAN = lambda *names: [('lean', 'rxv.lean', 'unit_lean', {'files': list(names)})]
